@@ -30,13 +30,24 @@ type Scanner struct {
 	line         int // line number at linePos
 
 	totalPos int
+
+	maxToken int  // longest token, in bytes, that can be scanned
+	overrun  bool // the token being scanned was refused a rune because of maxToken
 }
 
+// newScannerBuf returns a scanner whose window, and longest token, is buf.
 func newScannerBuf(file string, r io.Reader, buf []byte) *Scanner {
+	return newScannerBufMax(file, r, buf, len(buf))
+}
+
+// newScannerBufMax returns a scanner reading through buf that refuses to scan
+// a token longer than maxToken bytes.
+func newScannerBufMax(file string, r io.Reader, buf []byte, maxToken int) *Scanner {
 	s := &Scanner{
 		file:      file,
 		r:         r,
 		buf:       buf,
+		maxToken:  maxToken,
 		line:      1,
 		startLine: 1,
 	}
@@ -45,17 +56,20 @@ func newScannerBuf(file string, r io.Reader, buf []byte) *Scanner {
 	return s
 }
 
-// DefaultBufSize is the size of the sliding window NewScanner allocates.  It
-// is also the largest single token NewScanner can scan: the window never
-// grows, so a token that fills it fails with "token exceeds maximum allowable
+// DefaultBufSize is the size of the sliding window NewScanner reads through.
+// It is also the largest single token NewScanner can scan: the window never
+// grows, so a token longer than it fails with "token exceeds maximum allowable
 // size".
 const DefaultBufSize = 128 << 10
 
 // NewScanner initializes and returns a new Scanner reading through a
 // DefaultBufSize sliding window.
 func NewScanner(file string, r io.Reader) *Scanner {
-	buf := make([]byte, DefaultBufSize, DefaultBufSize+1)
-	return newScannerBuf(file, r, buf)
+	// The buffer is one rune longer than the longest token, so that the rune
+	// that follows a token of exactly DefaultBufSize bytes can be looked at:
+	// whether such a token is read must not depend on what comes after it.
+	buf := make([]byte, DefaultBufSize+utf8.UTFMax)
+	return newScannerBufMax(file, r, buf, DefaultBufSize)
 }
 
 // NewScannerString initializes and returns a new Scanner reading src, sizing
@@ -72,7 +86,7 @@ func NewScanner(file string, r io.Reader) *Scanner {
 // attacker controls, in a parser whose job is to survive untrusted phylum
 // source.
 func NewScannerString(file, src string) *Scanner {
-	return newScannerBuf(file, strings.NewReader(src), make([]byte, len(src), len(src)+1))
+	return newScannerBuf(file, strings.NewReader(src), make([]byte, len(src)))
 }
 
 // SetPath associates a physical location (e.g. filesystem path) with s to aid
@@ -96,6 +110,7 @@ func (s *Scanner) EmitToken(typ Type) *Token {
 // Ignore causes the scanner to skip all text scanned since the last call to
 // either EmitToken or Ignore.
 func (s *Scanner) Ignore() {
+	s.overrun = false
 	s.start = s.next
 	s.startLine = s.line
 	s.startLinePos = s.linePos
@@ -115,34 +130,23 @@ func (s *Scanner) Text() string {
 // fills the sliding window and more input follows.
 var ErrTokenTooLong = errors.New("token exceeds maximum allowable size")
 
-// Overrun reports whether the text scanned since the last call to EmitToken
-// or Ignore fills the whole sliding window while the input goes on.  No
-// further rune can be scanned into such a token, so Peek and the Accept
-// methods report false exactly as they do at the end of a token; a caller that
-// is about to emit a token of unbounded length must ask Overrun first, or it
-// emits a truncated token and scans the remainder as if it were new source
-// text.  A token that ends together with the input is not overrun.
+// Overrun reports whether the token being scanned (the text scanned since the
+// last call to EmitToken or Ignore) was refused a rune because it would have
+// grown longer than the scanner's window.  ScanRune reports ErrTokenTooLong
+// then, and the Accept methods report false exactly as they do at the end of
+// a token; a caller that is about to emit a token of unbounded length must ask
+// Overrun first, or it emits a truncated token and scans the remainder as if
+// it were new source text.
 func (s *Scanner) Overrun() bool {
-	if len(s.peek) > 0 || s.start != 0 || len(s.buf) == 0 || utf8.FullRune(s.buf[s.next:]) {
-		return false
-	}
-	// The token occupies everything read so far, up to a rune the window cuts
-	// in two.  Whether the input has ended is only known once a read came back
-	// empty, so look one byte ahead; the constructors leave room for that byte
-	// behind the window.
-	for tries := 0; tries < 8 && s.readErr == nil; tries++ {
-		end := len(s.buf)
-		if end == cap(s.buf) {
-			s.buf = append(s.buf, 0)[:end]
-		}
-		n, err := s.r.Read(s.buf[end : end+1])
-		if n > 0 {
-			s.buf = s.buf[:end+1]
-			return true
-		}
-		if err != nil {
-			s.readErr = err
-		}
+	return s.overrun
+}
+
+// tokenFull reports whether a rune of n more bytes would make the token being
+// scanned longer than the scanner can hold, and remembers that it was asked.
+func (s *Scanner) tokenFull(n int) bool {
+	if s.next-s.start+n > s.maxToken {
+		s.overrun = true
+		return true
 	}
 	return false
 }
@@ -183,6 +187,9 @@ func (s *Scanner) ScanRune() error {
 		return err
 	}
 	if len(s.peek) > 0 {
+		if s.tokenFull(s.peek[0].N) {
+			return ErrTokenTooLong
+		}
 		s.scan(s.peek[0])
 		s.peek = s.peek[1:]
 		return s.checkRuneError()
@@ -192,6 +199,9 @@ func (s *Scanner) ScanRune() error {
 		return err
 	}
 	c, n := utf8.DecodeRune(s.buf[s.next:])
+	if s.tokenFull(n) {
+		return ErrTokenTooLong
+	}
 	s.scan(Rune{c, n})
 	err = s.checkRuneError()
 	if err != nil {
